@@ -170,6 +170,62 @@ example :
     validateRequestR guardSrc registry { rb with required := false } "application/json".toList ⟨.nilBody, 3⟩ b false true = .ok := by
   decide
 
+/-! ## the decoder registry as state: histories of Register / Unregister -/
+
+/-- one operation: its own key gets what it says, every other key keeps its entry -/
+theorem lookup_regApply (reg : List (Str × DecK)) (op : RegOp) (k : Str) :
+    lookup k (regApply reg op) = if op.key = k then op.effect else lookup k reg := by
+  cases op with
+  | register k' d =>
+    by_cases h : k' = k
+    · simp [regApply, RegOp.key, RegOp.effect, h, lookup]
+    · have h' : ¬ k = k' := fun e => h e.symm
+      simp [regApply, RegOp.key, RegOp.effect, h, lookup, h', lookup_dropKey_other k' k h']
+  | unregister k' =>
+    by_cases h : k' = k
+    · simp [regApply, RegOp.key, RegOp.effect, h, lookup_dropKey_self]
+    · have h' : ¬ k = k' := fun e => h e.symm
+      simp [regApply, RegOp.key, RegOp.effect, h, lookup_dropKey_other k' k h']
+
+/-- **history**: after ANY sequence of registrations and removals, the decoder a media type is routed to is decided
+by the last operation on that very key (none: the initial entry) — no operation on another key, and no earlier
+operation on the same key, leaves a trace -/
+theorem lookup_after_ops (k : Str) : ∀ (ops : List RegOp) (reg : List (Str × DecK)),
+    lookup k (regApplyAll reg ops) = lastOn k ops (lookup k reg) := by
+  intro ops
+  induction ops with
+  | nil => intro reg; rfl
+  | cons op rest ih =>
+    intro reg
+    show lookup k (regApplyAll (regApply reg op) rest) = lastOn k rest (if op.key = k then op.effect else lookup k reg)
+    rw [ih, lookup_regApply]
+
+/-- the property holds in every state of the registry: `accept_iff_partial_R` after any history -/
+theorem accept_iff_partial_after_ops (ops : List RegOp) (reg : List (Str × DecK)) (rb : ReqBody) (ct : Str) (r : ReqShape)
+    (b : BodyIn) (exro ds : Bool)
+    (hmod : validateRequestR guardSrc (regApplyAll reg ops) rb ct r b exro ds ≠ .panic ∧
+            validateRequestR guardSrc (regApplyAll reg ops) rb ct r b exro ds ≠ .unmodelled)
+    (hwf : formEncsWF (regApplyAll reg ops) rb ct (carried r b) = true)
+    (h1 : exclFormUnparsable (regApplyAll reg ops) rb ct (carried r b) = false)
+    (hn : caseNeutral (regApplyAll reg ops) rb ct (carried r b) exro ds = true)
+    (hw : caseWF (regApplyAll reg ops) rb ct (carried r b) = true) :
+    (validateRequestR guardSrc (regApplyAll reg ops) rb ct r b exro ds).isOk = true ↔
+      AcceptR (regApplyAll reg ops) rb ct r b exro :=
+  accept_iff_partial_R (regApplyAll reg ops) rb ct r b exro ds hmod hwf h1 hn hw
+
+/-- non-vacuity: JSON unregistered ⇒ a JSON body cannot be decoded; registered again under the plain decoder ⇒ the
+text itself is the value; an operation on another key changes nothing -/
+example :
+    let s := RS.leaf (some .string) false false false 0 none [] [] none none
+    let rb : ReqBody := ⟨true, [("application/json".toList, ⟨some s, []⟩)]⟩
+    let b : BodyIn := { text := ['7'], json := some (.int 7), form := none, parts := none }
+    let aj := "application/json".toList
+    validateRequestR guardSrc registry rb aj ⟨.stream, 1⟩ b false true = .schemaErr ∧
+    validateRequestR guardSrc (regApplyAll registry [.unregister aj]) rb aj ⟨.stream, 1⟩ b false true = .decodeErr ∧
+    validateRequestR guardSrc (regApplyAll registry [.unregister aj, .register aj .plain]) rb aj ⟨.stream, 1⟩ b false true = .ok ∧
+    validateRequestR guardSrc (regApplyAll registry [.register "text/plain".toList .json, .unregister "a/b".toList]) rb aj ⟨.stream, 1⟩ b false true = .schemaErr := by
+  decide
+
 /-! ## one request object validated several times -/
 
 /-- the read puts the body back as a stream: a request whose body was read is read again by the next call, one
